@@ -327,6 +327,9 @@ def gen_blind(r):
     T = G.schema_for(r, sub, min_rules=1, max_rules=2, mode="typed", cast_p=35, cond_depth=1, max_len=2)
     U = G.schema_for(r, sub, min_rules=1, max_rules=2, mode="typed", cast_p=20, cond_depth=1, max_len=2)
     root2 = G.guided_path(r, sub, max_len=1, miss=20, mode="typed", prim_only=True)
+    if S.rules and r.pct() < 15:
+        # a T that compares EQUAL to S (same rules) and is still another schema: its rules carry their own doc blocks
+        T = SchemaT([rl.replace(doc=G.doc_block(r)) for rl in S.rules])
     return S, T, U, root, root2, d, r.coin(60), r.coin(50)
 
 
@@ -357,7 +360,10 @@ def body_blind(case):
         out.nontrivial = False
         return out
     try:
-        s.add_schema(t, R)
+        if len(repr(root)) % 2:
+            s.add_schema(schema=t, root_path=R)  # the documented parameter names
+        else:
+            s.add_schema(t, R)
         if grow:
             t.add_schema(u, R2)
     except Exception as e:
@@ -367,6 +373,18 @@ def body_blind(case):
     u_sorted = [U.rules[i] for i in model.rule_order(U.rules)]
     exp_s = SchemaT(sorted([S.rules[i] for i in order] + [rerooted(root, x) for x in t_sorted], key=lambda x: len(x.path.parts)))
     exp_t = SchemaT(sorted(t_sorted + ([rerooted(root2, x) for x in u_sorted] if grow else []), key=lambda x: len(x.path.parts)))
+    # the rules S received are T's: each carries the doc block of the rule of T it was made from
+    try:
+        want_docs = sorted(repr(x.doc) for x in t_sorted if x.doc is not None)
+        own = {id(o) for o in rule_objs}
+        got_docs = sorted(repr(o.doc) for o in s.rules if id(o) not in own and o.doc)
+        norm = lambda d_: sorted(str(x).replace(" ", "") for x in d_)
+        if any(x.doc is not None for x in t_sorted) and len(got_docs) != len(want_docs):
+            out.add("rules-added", "rules-added|doc-blocks", f"the rules added to S carry doc blocks {got_docs!r}; T's rules carry {want_docs!r}"[:500])
+            return out
+    except Exception as e:
+        out.exc("rules-added|docs", e)
+        return out
     checks = [("S", s, exp_s), ("T", t, exp_t)]
     if twin:
         checks.append(("bystander", s2, SchemaT([S.rules[i] for i in order])))
